@@ -26,7 +26,7 @@ import (
 
 type vfFrW [2]int // 32-bit word as two 16-bit halves
 
-func (w vfFrW) u32() uint32 { return uint32(w[0])<<16 | uint32(w[1]) }
+func (w vfFrW) u32() uint32   { return uint32(w[0])<<16 | uint32(w[1]) }
 func vfFrWord(v uint32) vfFrW { return vfFrW{int(v >> 16), int(v & 0xffff)} }
 
 type vfFrSeg struct {
@@ -460,8 +460,6 @@ func TestVerifH2Frame(t *testing.T) {
 	env.Finish(nil)
 }
 
-var _ = hpack.HeaderField{}
-
 // ---------------------------------------------------------------------------------------
 // C06 record: seeded random Write* sequences on one Framer / one buffer.
 
@@ -483,7 +481,7 @@ func vfFrRandSid(rnd *rand.Rand) uint32 {
 	case 2:
 		return uint32(1 + rnd.Intn(100))
 	case 3:
-		return uint32(rnd.Intn(1<<16)) << 16 & (1<<31 - 1) | 1
+		return uint32(rnd.Intn(1<<16))<<16&(1<<31-1) | 1
 	default:
 		return uint32(1 + rnd.Int63n(1<<31-1))
 	}
